@@ -326,6 +326,20 @@ func (server *SugarDB) setExpiry(ctx context.Context, key string, expireAt time.
 	}
 	server.keysWithExpiry.rwMutex.Unlock()
 
+	// A key that has lost its deadline is not a candidate of the volatile policies any more.
+	if expireAt == (time.Time{}) {
+		switch strings.ToLower(server.config.EvictionPolicy) {
+		case constants.VolatileLFU:
+			server.lfuCache.cache[database].Mutex.Lock()
+			server.lfuCache.cache[database].Delete(key)
+			server.lfuCache.cache[database].Mutex.Unlock()
+		case constants.VolatileLRU:
+			server.lruCache.cache[database].Mutex.Lock()
+			server.lruCache.cache[database].Delete(key)
+			server.lruCache.cache[database].Mutex.Unlock()
+		}
+	}
+
 	// If touch is true, update the keys status in the cache.
 	if touch {
 		go func(ctx context.Context, key string) {
